@@ -11,17 +11,17 @@ import (
 )
 
 type mergeErr struct {
-	Syn                bool
-	Msg, File          string
-	LS, LE, CS, CE     int
+	Syn            bool
+	Msg, File      string
+	LS, LE, CS, CE int
 }
 
 type mergeRes struct {
-	Out    string // canonical outcome
-	Model  *openfgav1.AuthorizationModel
-	Errs   []mergeErr
-	Panic  string
-	Other  string
+	Out   string // canonical outcome
+	Model *openfgav1.AuthorizationModel
+	Errs  []mergeErr
+	Panic string
+	Other string
 }
 
 // realMerge runs the real TransformModuleFilesToModel.
